@@ -1123,6 +1123,7 @@ class VacancyMediated(object):
         diffuser = cls(None, None, None, None)  # initialize
         diffuser.crys = yaml.load(HDF5group['crystal_yaml'][()], Loader=yaml.Loader)
         diffuser.dim = diffuser.crys.dim
+        diffuser.threshold = diffuser.crys.threshold  # (as in __init__; makesupercells needs it)
         for internal in cls.__HDF5list__:
             setattr(diffuser, internal, HDF5group[internal][()])
         diffuser.sitelist = [[] for i in range(max(diffuser.invmap) + 1)]
